@@ -178,11 +178,12 @@ theorem clone_spec {w : World} (hw : Inv w) {h : Nat} {g : Guard} (hf : findGuar
 exactly as it was; for the composite `system_data` this is *after unwinding* — the guards taken
 for earlier fields have been released again. -/
 theorem panic_frame {w : World} (hw : Inv w) (hh : HandlesOk w) (op : Op) (p : WPanic)
-    (hne : ∀ items toks, op ≠ .exec items toks) (hp : (w.step op).2 = .panic p) :
+    (hne : ∀ items toks, op ≠ .exec items toks ∧ op ≠ .execFault items toks) (hp : (w.step op).2 = .panic p) :
     (w.step op).1.cells = w.cells ∧ (w.step op).1.guards = w.guards :=
   step_panic_frame hw hh op p hne hp
 
-/-- `exec` is `setup` then fetch: a panic of the fetch leaves the world as `setup` made it -/
+/-- `exec` is `setup` then fetch: a panic of the fetch leaves the world as `setup` made it (the
+same for `exec` with a closure that would panic: `exec_closure_panics`) -/
 theorem panic_frame_exec {w : World} (hw : Inv w) (hg : w.guards = []) (items : List SdItem) (toks : List Nat)
     (p : WPanic) (hp : (w.step (.exec items toks)).2 = .panic p) :
     (w.step (.exec items toks)).1.cells = (w.setup items toks).1.cells ∧
@@ -209,6 +210,76 @@ theorem drop_exact {w : World} (hw : Inv w) {h : Nat} {g : Guard} (hf : findGuar
 theorem drop_dead {w : World} {h : Nat} (hf : findGuard h w.guards = none) : (w.step (.drop h)).1 = w :=
   release_dead hf
 
+/-! ## unwinding through guards
+
+A closure run under `catch_unwind` takes guards of any kind in any order (`Take`: the four typed
+fetches, the two by-id fetches, a system-data tuple with `Read` / `Write` / `Option` fields, steps of
+its own meta-table iterators, clones of its own or of outer guards) and ends by returning, by its own
+`panic!()`, or because one of its fetches was refused after others had succeeded. -/
+
+/-- **`scope_frame`** — *unwinding through a guard releases exactly that borrow*: however the
+closure ends, afterwards every cell has the borrow state it had before, and the guards alive outside
+the closure are exactly the ones that were alive before — nothing the closure took is still
+borrowed, nothing it did not take was released. -/
+theorem scope_frame {w : World} (hw : Inv w) (hh : HandlesOk w) (tys : List Nat) (takes : List Take) (e : Bool) :
+    (w.step (.scope tys takes e)).1.cells = w.cells ∧ (w.step (.scope tys takes e)).1.guards = w.guards :=
+  Shred.scope_frame hw hh tys takes e
+
+/-- in particular every resource is borrowed exactly as before, by exactly the same guards -/
+theorem scope_restores {w : World} (hw : Inv w) (hh : HandlesOk w) (tys : List Nat) (takes : List Take) (e : Bool)
+    (r : ResId) (x : Bool) :
+    (w.step (.scope tys takes e)).1.get r = w.get r ∧ (w.step (.scope tys takes e)).1.nLive r x = w.nLive r x := by
+  obtain ⟨h1, h2⟩ := scope_frame hw hh tys takes e
+  exact ⟨by rw [get_def, h1, ← get_def], by unfold World.nLive; rw [h2]⟩
+
+/-- unwinding releases what a normal return releases: the world after the closure does not depend
+on whether it panicked at its end or returned -/
+theorem unwind_eq_return (w : World) (tys : List Nat) (takes : List Take) :
+    (w.step (.scope tys takes true)).1 = (w.step (.scope tys takes false)).1 := rfl
+
+/-- the closure's answer: what its guards showed, and `refused p` iff one of its fetches panicked
+with `p` (then the remaining ones were not attempted), else `panicked` / `returned` as it chose -/
+theorem scope_out (w : World) (tys : List Nat) (takes : List Take) (e : Bool) :
+    (w.step (.scope tys takes e)).2 =
+      .scopeDone (scopeBody tys takes w 0 0 []).2.2.1
+        (match (scopeBody tys takes w 0 0 []).2.2.2 with
+          | some p => .refused p
+          | none => if e then .panicked else .returned) := rfl
+
+/-- every acquisition inside a closure is one of the `&self` operations of `outcome_spec` /
+`meta_next_spec` / `clone_spec` (so a refusal inside a closure is a refusal by those rules) -/
+theorem take_is_step (w : World) (tys : List Nat) (ri wi : Nat) (prior : List Nat) (t : Take)
+    (hc : ∀ i, t = .cloneLocal i → i < prior.length) :
+    t.run w tys ri wi prior = w.step (t.toOp tys ri wi prior) ∧ (t.toOp tys ri wi prior).isMut = false := by
+  cases t with
+  | fetch ty excl orPanic => cases excl <;> cases orPanic <;> exact ⟨rfl, rfl⟩
+  | byId a k excl => cases excl <;> exact ⟨rfl, rfl⟩
+  | data items => exact ⟨rfl, rfl⟩
+  | iter excl => exact ⟨rfl, rfl⟩
+  | cloneLocal i =>
+    have hi := hc i rfl
+    simp only [Take.run, Take.toOp]
+    rw [List.getElem?_eq_getElem hi]
+    exact ⟨rfl, rfl⟩
+  | cloneOuter h => exact ⟨rfl, rfl⟩
+
+/-- the guard `entry()…` returns keeps `&mut World` borrowed; if the caller panics while holding
+it, unwinding releases it: the world is the one after the plain `entry` call, no guard is alive -/
+theorem entry_guard_unwinds {w : World} (hw : Inv w) (hg : w.guards = []) (ty t : Nat) (bv : Bool) :
+    (w.step (.entryFault ty t (.guardHeld bv))).1 = (w.step (.entry ty t bv)).1 ∧
+    (w.step (.entryFault ty t (.guardHeld bv))).1.guards = [] ∧
+    (w.step (.entryFault ty t (.guardHeld bv))).2 = .unwound .closure :=
+  ⟨entryFault_guardHeld_fst w ty t bv, (entryFault_inv hw hg ty t (.guardHeld bv)).2,
+   entryFault_guardHeld_out hw hg ty t bv⟩
+
+/-- `exec(f)` with an `f` that panics while it holds the data: the world is the one after the plain
+`exec`; the answer is the refusal of the fetch if there was one, else the closure's panic -/
+theorem exec_closure_panics (w : World) (items : List SdItem) (toks : List Nat) :
+    (w.step (.execFault items toks)).1 = (w.step (.exec items toks)).1 ∧
+    (((w.step (.execFault items toks)).2 = .unwound .closure ∧ ∃ fs, (w.step (.exec items toks)).2 = .data fs) ∨
+     (∃ p, (w.step (.execFault items toks)).2 = .panic p ∧ (w.step (.exec items toks)).2 = .panic p)) :=
+  execFault_spec w items toks
+
 /-! ## non-vacuity: concrete legal histories, conflicts, unwinding -/
 
 /-- a legal history with shared, exclusive, by-id, composite and iterator borrows -/
@@ -233,6 +304,26 @@ example : ((run {} (sample.take 13)).step
 /-- the hypotheses of `drop_exact` / `clone_spec` are satisfiable -/
 example : findGuard 1 (run {} (sample.take 5)).guards = some ⟨⟨1, 0⟩, false⟩ := by decide
 
+/-- a closure that, while two shared guards on resource 1 live outside it, takes a `Write` on 2 by
+id, a tuple `(Read<1>, Option<Write<3>>)`, a clone of its first tuple field, a step of its own
+iterator — and is then refused `fetch_mut::<1>()`: five guards are unwound, the outer two stay -/
+def unwound : Op :=
+  .scope [3, 2, 1] [.byId 2 ⟨2, 7⟩ true, .data [⟨1, false, false, true⟩, ⟨3, true, true, true⟩], .cloneLocal 1,
+    .iter false, .fetch 1 true true, .fetch 2 false false] false
+
+example : ((run {} (sample.take 4)).step unwound).2 =
+      .scopeDone [some 11, some 10, none, some 10, some 10] (.refused .alreadyBorrowed) ∧
+    (scopeBody [3, 2, 1] [.byId 2 ⟨2, 7⟩ true, .data [⟨1, false, false, true⟩, ⟨3, true, true, true⟩], .cloneLocal 1,
+      .iter false, .fetch 1 true true, .fetch 2 false false] (run {} (sample.take 4)) 0 0 []).2.1 = [2, 3, 4, 5] ∧
+    ((run {} (sample.take 4)).step unwound).1.cells = (run {} (sample.take 4)).cells ∧
+    ((run {} (sample.take 4)).step unwound).1.guards.map (·.1) = [0, 1] := by decide
+
+/-- the same closure ending in its own panic instead (no refusal): everything is released as well -/
+example : ((run {} (sample.take 4)).step (.scope [1] [.fetch 1 false true, .iter false, .iter false] true)).2 =
+      .scopeDone [some 10, some 10, none] .panicked ∧
+    ((run {} (sample.take 4)).step (.scope [1] [.fetch 1 false true, .iter false, .iter false] true)).1.cells =
+      (run {} (sample.take 4)).cells := by decide
+
 end C08
 end Shred
 
@@ -249,3 +340,10 @@ end Shred
 #print axioms Shred.C08.panic_frame_exec
 #print axioms Shred.C08.drop_exact
 #print axioms Shred.C08.drop_dead
+#print axioms Shred.C08.scope_frame
+#print axioms Shred.C08.scope_restores
+#print axioms Shred.C08.unwind_eq_return
+#print axioms Shred.C08.scope_out
+#print axioms Shred.C08.take_is_step
+#print axioms Shred.C08.entry_guard_unwinds
+#print axioms Shred.C08.exec_closure_panics
